@@ -112,7 +112,7 @@ theorem PRelM.init {tbl : Table} {fs : FlagMap} (hwf : WfChunkWith tbl fs = true
     refine ⟨rfl, ⟨⟨.none, ⟨⟨rfl, rfl, rfl, rfl, rfl, rfl, rfl, rfl⟩, ?_, rfl⟩, BSide.plain _ _ _⟩, rfl⟩, ?_, rfl, rfl⟩
     · refine LexRel.weaken (ab := Ab.none) ?_ (flagsOf_text hwf _ .data rfl rfl)
       exact ⟨Nat.le_refl _, rfl, (fun g => by cases g), rfl, (fun g => by cases g), trivial, trivial, trivial,
-        (fun g => by cases g)⟩
+        (fun g => by cases g), (fun g => by cases g), (fun g => by cases g)⟩
     · exact ⟨rfl, rfl, rfl, rfl, rfl, rfl, rfl, rfl⟩
   | scan =>
     refine ⟨rfl, ⟨⟨.none, ⟨⟨rfl, rfl, rfl, rfl, rfl, rfl, rfl, rfl⟩, ?_, rfl⟩, BSide.plain _ _ _⟩, rfl⟩, ?_, rfl, rfl⟩
